@@ -28,6 +28,8 @@ OPTION_SETS = [
     ("tiny-files", ["--sst-target-file-size", "150", "--sst-minimum-file-size", "60", "--sst-target-block-size", "64"]),
     ("few-files-per-compaction", ["--sst-target-file-size", "300", "--sst-minimum-file-size", "100", "--sst-target-block-size", "96", "--max-compaction-files", "4"]),
     ("big-files", ["--sst-target-block-size", "256"]),
+    ("keep-two-versions", ["--sst-target-file-size", "200", "--sst-minimum-file-size", "80", "--sst-target-block-size", "64", "--gc-policy", "versions = 2"]),
+    ("keep-three-versions-tiny", ["--sst-target-file-size", "120", "--sst-minimum-file-size", "50", "--sst-target-block-size", "64", "--gc-policy", "versions = 3"]),
 ]
 BASE_OPTS = ["--memtable-size-bytes", "100000000", "--l0-write-stall-threshold-files", "100000",
              "--l0-write-stall-threshold-bytes", "100000000000"]
